@@ -68,8 +68,27 @@ Definition op_cbor_text_batch (args : list sx) : sx :=
   | _ => bad_args
   end.
 
+(* cbor_dec_segments ((kinds) x..)...: ONE decoder on a reader that is fed segment by
+   segment (it reports EOF at the end of each segment).  A decode that fails at
+   the end of a segment has consumed what was there; the harness stops at the first failing call of a
+   segment and drains it, so the next segment starts fresh ON THE SAME DECODER. *)
+Fixpoint dec_seq_cont (kinds : list sx) (bs : bytes) (acc : list sx) : list sx :=
+  match kinds with
+  | [] => rev acc
+  | k :: t =>
+      match dec_one k bs with
+      | Ok (v, r) => dec_seq_cont t r (SL [sym "ok"; v] :: acc)
+      | _ => rev (SL [sym "err"] :: acc)       (* the harness drains the segment after an error *)
+      end
+  end.
+Definition op_cbor_dec_segments (args : list sx) : sx :=
+  SL (map (fun s => match s with
+                    | SL [SL kinds; SB seg] => SL (dec_seq_cont kinds seg [])
+                    | _ => bad_args end) args).
+
 Definition dispatch_cbor (op : bytes) (args : list sx) : option sx :=
   if bytes_eqb op (s2b "cbor_prog") then Some (op_cbor_prog args)
   else if bytes_eqb op (s2b "cbor_dec") then Some (op_cbor_dec args)
   else if bytes_eqb op (s2b "cbor_text_batch") then Some (op_cbor_text_batch args)
+  else if bytes_eqb op (s2b "cbor_dec_segments") then Some (op_cbor_dec_segments args)
   else None.
